@@ -78,25 +78,46 @@ Theorem C18_field_type_imports : forall L target c t,
 Proof. exact field_type_lit_imports. Qed.
 Print Assumptions C18_field_type_imports.
 
-(* a field typed by an alias of anything but a named type is assigned, replaced or not: createFieldSnippet has no case
-   for *types.Alias (an alias of a named type is treated as that named type: C18_copy_foreign_named, C18_copy_replaced_named) *)
+(* fields typed through an alias (createFieldSnippet switches on types.Unalias(f.Type())): an alias of a named type is
+   treated as that named type (C18_copy_foreign_named, C18_copy_replaced_named); an alias of a slice or map type gets the
+   container copy, and make(...) spells the alias's own name (the right-hand side may not be writable in the target
+   package); an alias of anything else is assigned *)
+Theorem C18_copy_alias_container : forall L target c b f p n r,
+    f_ty f = TAlias p n r ->
+    is_container (unalias r) = true ->
+    exists s, field_stmt L target c b f = GOk s (snd (field_type_lit L target c (f_ty f))) /\
+      (s = SCopySlice (f_name f) (fst (field_type_lit L target c (f_ty f))) \/
+       s = SCopyMap (f_name f) (fst (field_type_lit L target c (f_ty f)))) /\
+      fst (field_type_lit L target c (f_ty f)) = (if bytes_eqb p target then OIdent n else OSel (L p) n).
+Proof. exact alias_container_copied. Qed.
+Print Assumptions C18_copy_alias_container.
+
 Theorem C18_copy_alias_field : forall L target c b f p n r,
     f_ty f = TAlias p n r ->
     (forall pkg name u ms, unalias r <> TNamed pkg name u ms) -> unalias r <> TError ->
+    is_container (unalias r) = false ->
     field_stmt L target c b f = GOk (SAssign (f_name f)) [].
 Proof. exact alias_field_assigned. Qed.
 Print Assumptions C18_copy_alias_field.
 
-(* before the repair fixes/C18-replace-on-alias-field.diff no alias was looked through: a replaced field typed by an alias of
-   a named struct was assigned (`out.A = in.A` with the replacement's type on the right: does not compile) *)
-Theorem C18_copy_replaced_alias_refuted_before_fix : forall L target c f p n r,
+(* before the repairs bf0d8cc (fixes/C18-replace-on-alias-field.diff) and adc5fac no alias was looked through: every
+   alias-typed field was assigned - a replaced field typed by an alias of a named struct (`out.A = in.A` with the
+   replacement's type on the right: does not compile), a slice or map declared through an alias (shared with the source) *)
+Theorem C18_copy_alias_refuted_before_fix : forall L target c b f p n r,
     f_ty f = TAlias p n r ->
-    field_stmt_gen L target c false true f = GOk (SAssign (f_name f)) [].
-Proof. exact replaced_alias_refuted_before_fix. Qed.
-Print Assumptions C18_copy_replaced_alias_refuted_before_fix.
+    field_stmt_gen L target c false b f = GOk (SAssign (f_name f)) [].
+Proof. exact alias_assigned_before_fix. Qed.
+Print Assumptions C18_copy_alias_refuted_before_fix.
 
-(* non-vacuity: `Items origin.Items` with `type Items = []hid.Item` (hid below origin/internal) keeps the alias name and is
-   assigned; `Spec origin.InnerA` (alias of a struct) under a replace tag is converted by the replacement's DeepCopyIntoAs;
+(* before the repair adc955a the copy loop did not pass over the blank field: `out._ = in._` (does not compile) *)
+Theorem C18_copy_blank_refuted_before_fix : forall L target c t tag,
+    gen_stmts_loop L target c [] [] [mk_field blank_name (TBasic t) tag] [] [] = GOk [SAssign blank_name] [] /\
+    gen_stmts_loop L target c (copy_skip []) [] [mk_field blank_name (TBasic t) tag] [] [] = GOk [] [].
+Proof. intros. split; reflexivity. Qed.
+Print Assumptions C18_copy_blank_refuted_before_fix.
+
+(* non-vacuity: `Items origin.Items` with `type Items = []hid.Item` (hid below origin/internal) keeps the alias name, also in
+   the make(...) of its container copy (before the repairs: assigned); an alias of a foreign struct is assigned; `Spec origin.InnerA` (alias of a struct) under a replace tag is converted by the replacement's DeepCopyIntoAs;
    below the top level (`[]origin.Item`, `type Item = hid.Item`) the right-hand side is printed - the same type *)
 Example C18_example_alias_fields :
   let hid := bs "example.com/m/origin/internal/hid" in
@@ -105,7 +126,10 @@ Example C18_example_alias_fields :
   let innera := TAlias w_origin (bs "InnerA") (TNamed w_origin (bs "Inner") UStruct []) in
   let imps := [(w_origin, bs "origin"); (hid, bs "hid")] in
   field_type_lit last_segment w_target all_fixed items = (OSel (bs "origin") (bs "Items"), [w_origin]) /\
-  field_stmt last_segment w_target all_fixed false (mk_field (bs "Items") items []) = GOk (SAssign (bs "Items")) [] /\
+  field_stmt last_segment w_target all_fixed false (mk_field (bs "Items") items [])
+    = GOk (SCopySlice (bs "Items") (OSel (bs "origin") (bs "Items"))) [w_origin] /\
+  field_stmt_gen last_segment w_target all_fixed false false (mk_field (bs "Items") items []) = GOk (SAssign (bs "Items")) [] /\
+  field_stmt last_segment w_target all_fixed false (mk_field (bs "Item") item []) = GOk (SAssign (bs "Item")) [] /\
   field_stmt last_segment w_target all_fixed true (mk_field (bs "Spec") innera [])
     = GOk (SCallInto (bs "Spec") dc_into_name) [] /\
   field_stmt_gen last_segment w_target all_fixed false true (mk_field (bs "Spec") innera []) = GOk (SAssign (bs "Spec")) [] /\
@@ -163,8 +187,8 @@ Theorem C18_copy : forall L target c ti g i fs conv,
     forall inv, exists out,
       deep_copy_as conv (g_stmts g) (Some inv) = Some (Some out) /\
       forall f, In f fs ->
-        (omitted (ti_omit ti) (f_name f) = true -> sget out (f_name f) = VZero) /\
-        (omitted (ti_omit ti) (f_name f) = false ->
+        (omitted (copy_skip (ti_omit ti)) (f_name f) = true -> sget out (f_name f) = VZero) /\
+        (omitted (copy_skip (ti_omit ti)) (f_name f) = false ->
            exists s j, In s (g_stmts g) /\
              field_stmt L target c (is_replaced (replace_map (ti_replace ti) []) f) f = GOk s j /\
              sget out (f_name f) = if is_call s then conv (f_name f) (sget inv (f_name f))
